@@ -53,15 +53,15 @@ theorem gen_add_program :
 
 /-- source shapes the model mirrors statement by statement -/
 theorem gen_src_pruneExpired : SSV.Gen.C03.srcPruneExpired =
-    "{ node := p.head if node == nil || node.expiresAt.After(now) { return } for { delete(p.nodeBySalt, node.salt) node = node.next if node == nil { p.head = nil p.tail = nil return } if node.expiresAt.After(now) { p.head = node return } } }" := by decide
+    "{ node := p.head if node == nil || node.expiresAt.After(now) { return } for { delete(p.nodeBySalt, node.salt) node = node.next if node == nil { p.head = nil p.tail = nil return } if node.expiresAt.After(now) { p.head = node return } } }" := rfl
 theorem gen_src_insert : SSV.Gen.C03.srcInsert =
-    "{ if p.nodeBySalt == nil { p.nodeBySalt = make(map[[32]byte]*saltNode) } node := &saltNode{ salt: salt, expiresAt: now.Add(ReplayWindowDuration), } p.nodeBySalt[salt] = node if p.tail != nil { p.tail.next = node } else { p.head = node } p.tail = node }" := by decide
+    "{ if p.nodeBySalt == nil { p.nodeBySalt = make(map[[32]byte]*saltNode) } node := &saltNode{ salt: salt, expiresAt: now.Add(ReplayWindowDuration), } p.nodeBySalt[salt] = node if p.tail != nil { p.tail.next = node } else { p.head = node } p.tail = node }" := rfl
 theorem gen_src_contains : SSV.Gen.C03.srcContains =
-    "{ p.mu.RLock() _, ok := p.nodeBySalt[salt] p.mu.RUnlock() return ok }" := by decide
+    "{ p.mu.RLock() _, ok := p.nodeBySalt[salt] p.mu.RUnlock() return ok }" := rfl
 theorem gen_src_tryContains : SSV.Gen.C03.srcTryContains =
-    "{ if p.mu.TryRLock() { _, ok := p.nodeBySalt[salt] p.mu.RUnlock() return ok } return false }" := by decide
+    "{ if p.mu.TryRLock() { _, ok := p.nodeBySalt[salt] p.mu.RUnlock() return ok } return false }" := rfl
 theorem gen_src_validateTimestamp : SSV.Gen.C03.srcValidateTimestamp =
-    "{ tsEpoch := int64(binary.BigEndian.Uint64(b)) nowEpoch := now.Unix() diff := tsEpoch - nowEpoch if diff < -MaxEpochDiff || diff > MaxEpochDiff { return &HeaderError[int64]{ErrBadTimestamp, nowEpoch, tsEpoch} } return nil }" := by decide
+    "{ tsEpoch := int64(binary.BigEndian.Uint64(b)) nowEpoch := now.Unix() diff := tsEpoch - nowEpoch if diff < -MaxEpochDiff || diff > MaxEpochDiff { return &HeaderError[int64]{ErrBadTimestamp, nowEpoch, tsEpoch} } return nil }" := rfl
 
 /-- the "30 seconds" of the statement -/
 theorem gen_max_epoch_diff : P.maxEpochDiff = 30 := by decide
@@ -123,12 +123,11 @@ theorem no_double_accept (st : State) (ops₁ ops₂ : List Op) (r r₂ : Reques
 seconds of the server clock, authenticates, and its salt was not in the pool. -/
 theorem only_within_30s (c : Bool) (now : Nat) (r : Request) (pool : Pool) (hc : ClockOk P now)
     (h : (handle P c now r pool).2 = .accepted) :
-    (ts_diff : Int) = r.ts.toInt - (unixSec now : Int) → (-30 ≤ ts_diff ∧ ts_diff ≤ 30) ∧ r.forged = false := by
-  intro hd
+    -30 ≤ r.ts.toInt - (unixSec now : Int) ∧ r.ts.toInt - (unixSec now : Int) ≤ 30 ∧ r.forged = false := by
   obtain ⟨h1, _, h3, h4, h5, _, hv, _, _, _⟩ := handle_accepted h
   have := (ts_valid_iff r.ts now hc).mp hv
   have hM := gen_max_epoch_diff
-  refine ⟨by omega, by simp [Request.forged, h1, h3, h4, h5]⟩
+  refine ⟨by omega, by omega, by simp [Request.forged, h1, h3, h4, h5]⟩
 
 /-- **Failed attempts leave nothing behind.** A presentation that does not authenticate (truncated, wrong prefix,
 unknown user, AEAD failure), or that authenticates but has the wrong type or an invalid timestamp, or that is
@@ -189,7 +188,9 @@ theorem concurrent_one_winner (r : Request) (p₀ : Pool) (k : Nat) (sched : Lis
   constructor
   · have := atMost_run (P := P) (r := r) sched (s := { pool := p₀, threads := List.replicate k .idle })
       gen_side_condition hclk (Or.inl hzero)
-    rcases this with h | ⟨h, _⟩ <;> (show countAccepted fin.threads ≤ 1) <;> omega
+    rcases this with h | ⟨h, _⟩
+    · show countAccepted (crun P r _ sched).threads ≤ 1; omega
+    · show countAccepted (crun P r _ sched).threads ≤ 1; omega
   · intro hg hfresh hk hvalid hdone
     have hinv := exact_run (P := P) (r := r) sched (s := { pool := p₀, threads := List.replicate k .idle })
       gen_side_condition hg (fun a ha i now e => ⟨hvalid a ha i now e, hclk a ha i now e⟩)
@@ -247,11 +248,13 @@ theorem replay_possible (Q : Params) (hbad : Q.window < (2 * Q.maxEpochDiff + 1)
     rw [tsValid_iff Q _ _ hcW]; show _ ∧ _; simp only [r', genuine, hts']; omega
   -- the three pools
   have hp1 : (handle Q false 0 r []).1 = [{ salt := 1, expiresAt := 0 + Q.window }] := by
-    rw [handle_eq]; simp [hv0, tryContains, contains, add, pruneExpired, insert, r, genuine]
+    have hv0' : tsValid Q (BitVec.ofNat 64 Q.maxEpochDiff) 0 = true := hv0
+    rw [handle_eq]; simp [hv0', tryContains, contains, add, pruneExpired, SaltPool.insert, r, genuine]
   have ha1 : (handle Q false 0 r []).2 = .accepted := fresh_pool_accept Q hv0 (by rfl)
   have hp2 : (handle Q false Q.window r' [{ salt := 1, expiresAt := 0 + Q.window }]).1
       = [{ salt := 2, expiresAt := Q.window + Q.window }] := by
-    rw [handle_eq]; simp [hvW', tryContains, contains, add, pruneExpired, insert, r', genuine]
+    have hvW'' : tsValid Q (BitVec.ofNat 64 (unixSec Q.window)) Q.window = true := hvW'
+    rw [handle_eq]; simp [hvW'', tryContains, contains, add, pruneExpired, SaltPool.insert, r', genuine]
   refine ⟨r, [], [.advance Q.window, .present r' false], ?_⟩
   simp only [run, step]
   refine ⟨ha1, hc0, ?_, ?_, ?_⟩
@@ -260,7 +263,7 @@ theorem replay_possible (Q : Params) (hbad : Q.window < (2 * Q.maxEpochDiff + 1)
   · simp only [Nat.zero_add, hp1]
     rw [show (0 + Q.window) = Q.window from Nat.zero_add _] at hp2
     rw [hp2]
-    exact fresh_pool_accept Q hvW (by simp [contains, r, genuine])
+    exact fresh_pool_accept Q hvW (by simp [contains])
 where
   fresh_pool_accept (Q : Params) {now : Nat} {pool : Pool} {s : Salt} {ts : BitVec 64}
       (hv : tsValid Q (genuine s ts).ts now = true) (hfresh : contains pool s = false) :
@@ -281,4 +284,50 @@ theorem replay_possible_before_fix :
       (handle Q false s₂.now r s₂.pool).2 = .accepted :=
   replay_possible { maxEpochDiff := 30, window := 60000000000 } (by decide) (by decide)
 
+/-! ## The hypotheses are satisfiable (non-vacuity) -/
+
+/-- 2000-01-01T00:00:00.5Z, the instant used below -/
+def t₀ : Nat := 946684800500000000
+
+example : ClockOk P t₀ := by decide
+/-- `no_double_accept`: a request with client clock +30 s accepted at `t₀`, still valid 60.1 s later -/
+example : (handle P false t₀ (genuine 1 946684830#64) []).2 = .accepted ∧ ClockOk P (t₀ + 60100000000) ∧
+    tsValid P 946684830#64 (t₀ + 60100000000) = true := by decide
+/-- `only_within_30s` / `fresh_never_refused` -/
+example : (handle P true t₀ (genuine 7 946684770#64) [{ salt := 3, expiresAt := t₀ + 5 }]).2 = .accepted := by decide
+/-- `failed_is_noop`: a forged copy carrying a pooled salt, `TryContains` contended -/
+example : ({ genuine 3 946684800#64 with authOk := false } : Request).forged = true := by decide
+/-- `ts_valid_word_iff`: clock range non-empty, and both outcomes occur -/
+example : tsValidWord P 946684830#64 946684800#64 = true ∧ tsValidWord P 946684831#64 946684800#64 = false ∧
+    tsValidWord P (946684800#64 + 0x8000000000000000#64) 946684800#64 = false := by decide
+/-- `pool_sorted`: the empty pool is well-formed -/
+example : WF P { now := t₀, pool := [] } := wf_empty P t₀
+/-- `concurrent_one_winner`: two threads, the second one's `TryContains` contended, clocks out of order -/
+example :
+    let fin := crun P (genuine 1 946684830#64) { pool := [], threads := List.replicate 2 .idle }
+      [.check 0 false, .check 1 true, .add 1 (t₀ + 7), .add 0 t₀]
+    allDone fin.threads = true ∧ fin.threads = [.done .repeatedSalt, .done .accepted] := by decide
+
 end SSV.C03
+
+#print axioms SSV.C03.gen_handle_stages
+#print axioms SSV.C03.gen_salt_pool_guards
+#print axioms SSV.C03.gen_add_program
+#print axioms SSV.C03.gen_src_pruneExpired
+#print axioms SSV.C03.gen_src_insert
+#print axioms SSV.C03.gen_src_contains
+#print axioms SSV.C03.gen_src_tryContains
+#print axioms SSV.C03.gen_src_validateTimestamp
+#print axioms SSV.C03.gen_max_epoch_diff
+#print axioms SSV.C03.gen_side_condition
+#print axioms SSV.C03.ts_valid_word_iff
+#print axioms SSV.C03.ts_valid_iff
+#print axioms SSV.C03.no_double_accept
+#print axioms SSV.C03.only_within_30s
+#print axioms SSV.C03.failed_is_noop
+#print axioms SSV.C03.forged_invisible
+#print axioms SSV.C03.fresh_never_refused
+#print axioms SSV.C03.pool_sorted
+#print axioms SSV.C03.concurrent_one_winner
+#print axioms SSV.C03.replay_possible
+#print axioms SSV.C03.replay_possible_before_fix
